@@ -71,6 +71,10 @@ type entryPoint struct {
 
 var c10Entries = []entryPoint{
 	{"File.Render", func(f *jen.File, st *jen.Statement, g *jen.Group, w io.Writer) error { return f.Render(w) }, "file"},
+	{"File.Render(NoFormat)", func(f *jen.File, st *jen.Statement, g *jen.Group, w io.Writer) error {
+		f.NoFormat = true
+		return f.Render(w)
+	}, "file"},
 	{"Statement.Render", func(f *jen.File, st *jen.Statement, g *jen.Group, w io.Writer) error { return st.Render(w) }, "stmt"},
 	{"Statement.RenderWithFile", func(f *jen.File, st *jen.Statement, g *jen.Group, w io.Writer) error {
 		return st.RenderWithFile(w, jen.NewFilePathName("some/pkg", "p"))
